@@ -812,7 +812,7 @@ def apply_edit_to_picture(G, op, allow_dangling=False):
 # DAG-shaped models with one fault point per element (C05 / C08 / C16 / C17)
 
 def gen_dag_model(draw, ncells=(4, 7), items=True, uncached=True, none_points=False, handled=True, uncached_p=5,
-                  lines=True):
+                  lines=True, none_values=False):
     """Build operations for a model whose cells form a DAG of calls.
 
     Cells d0..d<n-1>; d<k> calls 1-3 cells of lower index (by name, by attribute path, or through an
@@ -843,6 +843,7 @@ def gen_dag_model(draw, ncells=(4, 7), items=True, uncached=True, none_points=Fa
     n = draw(st.integers(*ncells))
     chainy = draw(st.integers(0, 2)) == 0
     cells = []
+    none_valued = set()
     for k in range(n):
         p = draw(st.sampled_from(paths)) if k < n - 1 else ["S0"]
         nparams = draw(st.sampled_from([0, 1, 1, 1]))
@@ -874,7 +875,9 @@ def gen_dag_model(draw, ncells=(4, 7), items=True, uncached=True, none_points=Fa
                     e = ["attr", e, part]
                 tgt = ["attr", e, cn]
             call = ["call", tgt, args, "()"]
-            if handled and draw(st.integers(0, 3)) == 0:
+            if (tuple(q), cn) in none_valued:
+                call = ["isnone", call]         # the callee answers None: only asked whether it does
+            elif handled and draw(st.integers(0, 3)) == 0:
                 call = ["try", call, ["lit", draw(small_int())]]     # the formula handles a callee's failure itself
             terms.append(call)
         rd = draw(st.sampled_from([
@@ -900,6 +903,11 @@ def gen_dag_model(draw, ncells=(4, 7), items=True, uncached=True, none_points=Fa
         c = {"name": "d%d" % k, "params": params, "expr": body,
              "cached": not (uncached and draw(st.integers(0, uncached_p - 1)) == 0),
              "allow_none": None, "form": form, "tick": True}
+        if none_values and form != "deflines" and draw(st.integers(0, 3)) == 0:
+            # a cells that evaluates its terms and answers None (allowed)
+            c["expr"] = ["thennone", body]
+            c["allow_none"] = True
+            none_valued.add((tuple(p), c["name"]))
         if form == "deflines":
             c["terms"] = terms
             c["guards"] = [draw(st.sampled_from([0, 0, 1, 2])) for _ in terms]
